@@ -282,29 +282,20 @@ theorem sweep_spec (c : Cfg) (now : Int) (q : Q) :
   · exact ⟨rfl, Or.inl rfl⟩
 
 theorem housekeeping_spec {c : Cfg} {now : Int} {q q1 : Q} {gone : List String}
-    (h : (if c.memory then prune c now (sweep c now q) gone
-          else (prune c now q gone).map (sweep c now)) = some q1) :
+    (h : (prune c now q gone).map (sweep c now) = some q1) :
     q1.issued = q.issued ∧ Swept now q.msgs q1.msgs := by
-  split at h
-  · obtain ⟨hi, hs⟩ := prune_spec h
-    obtain ⟨hi2, hm⟩ := sweep_spec c now q
-    refine ⟨hi.trans hi2, ?_⟩
+  cases hp : prune c now q gone with
+  | none => rw [hp] at h; cases h
+  | some qp =>
+    rw [hp] at h
+    simp only [Option.map_some, Option.some.injEq] at h
+    subst h
+    obtain ⟨hi, hs⟩ := prune_spec hp
+    obtain ⟨hi2, hm⟩ := sweep_spec c now qp
+    refine ⟨hi2.trans hi, ?_⟩
     rcases hm with hm | hm
-    · rw [hm] at hs; exact swept_of_sublist now hs
-    · rw [hm] at hs
-      exact (swept_sweep_of_sublist now (List.Sublist.refl _)).sublist hs
-  · cases hp : prune c now q gone with
-    | none => rw [hp] at h; cases h
-    | some qp =>
-      rw [hp] at h
-      simp only [Option.map_some, Option.some.injEq] at h
-      subst h
-      obtain ⟨hi, hs⟩ := prune_spec hp
-      obtain ⟨hi2, hm⟩ := sweep_spec c now qp
-      refine ⟨hi2.trans hi, ?_⟩
-      rcases hm with hm | hm
-      · rw [hm]; exact swept_of_sublist now hs
-      · rw [hm]; exact swept_sweep_of_sublist now hs
+    · rw [hm]; exact swept_of_sublist now hs
+    · rw [hm]; exact swept_sweep_of_sublist now hs
 
 theorem grant_id (now ttl : Int) (picks : List (String × String)) (m : Msg) :
     (grant now ttl picks m).id = m.id := by
